@@ -7,6 +7,8 @@ use h_common::{tool_error, Args};
 
 mod ranges;
 mod store;
+mod syncrange;
+mod windowsearch;
 
 fn main() {
     let args = Args::from_env();
@@ -16,6 +18,8 @@ fn main() {
     match (mode.as_str(), model.as_str()) {
         ("replay", "ranges") => ranges::replay(&args),
         ("record", "ranges") => ranges::record(&args),
+        ("replay", "syncrange") => syncrange::replay(&args),
+        ("replay", "windowsearch") => windowsearch::replay(&args),
         ("record", "store") => store::record(&args),
         _ => tool_error(&format!("unknown mode/model {mode}/{model}")),
     }
